@@ -10,6 +10,7 @@ mod c13;
 mod c16;
 mod c09;
 mod c19;
+mod c07;
 mod c08;
 mod c20;
 mod tess;
@@ -63,6 +64,7 @@ fn main() {
         "c16" => c16::main(&args),
         "c09" => c09::main(&args),
         "c19" => c19::main(&args),
+        "c07" => c07::main(&args),
         "c08" => c08::main(&args),
         "c20" => c20::main(&args),
         "c04" => c04::main(&args),
